@@ -160,17 +160,18 @@ Section Concrete.
   Inductive gk := GPlane | GStd | GOther.            (* Plane / StandardGeometry / any other geometry class *)
   Inductive medium := MIdeal (n k : T) | MGlass (id : nat).   (* IdealMaterial / catalogue Material #id *)
   Record surf := mkS { s_kind : gk; s_rad : T; s_con : T; s_z : T; s_dx : T; s_dy : T; s_rx : T; s_ry : T;
-                       s_cf : list T; s_med : medium }.
+                       s_cf : list T; s_med : medium;
+                       s_c2 : list (list T) }.           (* 2-D coefficient array of a polynomial / Chebyshev freeform *)
   Inductive pk := PRadius | PConic | PThick.
   Record pickup := mkP { p_src : Z; p_attr : pk; p_tgt : Z; p_scale : T; p_off : T }.
   Record clens := mkL { surfs : list surf; pickups : list pickup }.
 
   Variable glass_n : nat -> T -> T.                  (* Material.n(wavelength) of catalogue glass #id *)
 
-  Inductive hk := HRadius | HConic | HThick | HIndex | HAsph | HTiltX | HTiltY | HDecX | HDecY.
-  Record handle := mkH { h_kind : hk; h_surf : Z; h_j : Z; h_w : T; h_scaled : bool }.
+  Inductive hk := HRadius | HConic | HThick | HIndex | HAsph | HTiltX | HTiltY | HDecX | HDecY | HPoly.
+  Record handle := mkH { h_kind : hk; h_surf : Z; h_j : Z; h_w : T; h_scaled : bool; h_j2 : Z }.   (* coeff_index = (h_j, h_j2) *)
 
-  Definition dsurf : surf := mkS GPlane nan_ nan_ nan_ nan_ nan_ nan_ nan_ [] (MIdeal nan_ nan_).
+  Definition dsurf : surf := mkS GPlane nan_ nan_ nan_ nan_ nan_ nan_ nan_ [] (MIdeal nan_ nan_) [].
   Definition nthS (l : list surf) (i : Z) : surf := match nthZ l i with Some s => s | None => dsurf end.
   Definition updS (l : list surf) (i : Z) (f : surf -> surf) : list surf :=
     match nthZ l i with
@@ -187,7 +188,7 @@ Section Concrete.
     map (fun p => sub p p1) pos1.
   Definition put_positions (l : list surf) (pos : list T) : list surf :=
     map (fun p => let s := fst p in
-                  mkS (s_kind s) (s_rad s) (s_con s) (snd p) (s_dx s) (s_dy s) (s_rx s) (s_ry s) (s_cf s) (s_med s))
+                  mkS (s_kind s) (s_rad s) (s_con s) (snd p) (s_dx s) (s_dy s) (s_rx s) (s_ry s) (s_cf s) (s_med s) (s_c2 s))
         (combine l pos).
 
   (** Optic.set_radius: a flat surface stays a Plane for an infinite radius and becomes a StandardGeometry (keeping a conic
@@ -196,31 +197,52 @@ Section Concrete.
   Definition set_rad (v : T) (s : surf) : surf :=
     match s_kind s with
     | GPlane => if isinf_ v then s
-                else mkS GStd v (s_con s) (s_z s) (s_dx s) (s_dy s) (s_rx s) (s_ry s) (s_cf s) (s_med s)
-    | GStd => if isinf_ v then mkS GPlane inf_ (s_con s) (s_z s) (s_dx s) (s_dy s) (s_rx s) (s_ry s) (s_cf s) (s_med s)
-              else mkS GStd v (s_con s) (s_z s) (s_dx s) (s_dy s) (s_rx s) (s_ry s) (s_cf s) (s_med s)
-    | GOther => mkS GOther v (s_con s) (s_z s) (s_dx s) (s_dy s) (s_rx s) (s_ry s) (s_cf s) (s_med s)
+                else mkS GStd v (s_con s) (s_z s) (s_dx s) (s_dy s) (s_rx s) (s_ry s) (s_cf s) (s_med s) (s_c2 s)
+    | GStd => if isinf_ v then mkS GPlane inf_ (s_con s) (s_z s) (s_dx s) (s_dy s) (s_rx s) (s_ry s) (s_cf s) (s_med s) (s_c2 s)
+              else mkS GStd v (s_con s) (s_z s) (s_dx s) (s_dy s) (s_rx s) (s_ry s) (s_cf s) (s_med s) (s_c2 s)
+    | GOther => mkS GOther v (s_con s) (s_z s) (s_dx s) (s_dy s) (s_rx s) (s_ry s) (s_cf s) (s_med s) (s_c2 s)
     end.
   Definition set_con (v : T) (s : surf) : surf :=
-    mkS (s_kind s) (s_rad s) v (s_z s) (s_dx s) (s_dy s) (s_rx s) (s_ry s) (s_cf s) (s_med s).
+    mkS (s_kind s) (s_rad s) v (s_z s) (s_dx s) (s_dy s) (s_rx s) (s_ry s) (s_cf s) (s_med s) (s_c2 s).
   Definition set_med (m : medium) (s : surf) : surf :=
-    mkS (s_kind s) (s_rad s) (s_con s) (s_z s) (s_dx s) (s_dy s) (s_rx s) (s_ry s) (s_cf s) m.
+    mkS (s_kind s) (s_rad s) (s_con s) (s_z s) (s_dx s) (s_dy s) (s_rx s) (s_ry s) (s_cf s) m (s_c2 s).
   Definition set_cf (c : list T) (s : surf) : surf :=
-    mkS (s_kind s) (s_rad s) (s_con s) (s_z s) (s_dx s) (s_dy s) (s_rx s) (s_ry s) c (s_med s).
+    mkS (s_kind s) (s_rad s) (s_con s) (s_z s) (s_dx s) (s_dy s) (s_rx s) (s_ry s) c (s_med s) (s_c2 s).
   Definition set_dx (v : T) (s : surf) : surf :=
-    mkS (s_kind s) (s_rad s) (s_con s) (s_z s) v (s_dy s) (s_rx s) (s_ry s) (s_cf s) (s_med s).
+    mkS (s_kind s) (s_rad s) (s_con s) (s_z s) v (s_dy s) (s_rx s) (s_ry s) (s_cf s) (s_med s) (s_c2 s).
   Definition set_dy (v : T) (s : surf) : surf :=
-    mkS (s_kind s) (s_rad s) (s_con s) (s_z s) (s_dx s) v (s_rx s) (s_ry s) (s_cf s) (s_med s).
+    mkS (s_kind s) (s_rad s) (s_con s) (s_z s) (s_dx s) v (s_rx s) (s_ry s) (s_cf s) (s_med s) (s_c2 s).
   Definition set_rx (v : T) (s : surf) : surf :=
-    mkS (s_kind s) (s_rad s) (s_con s) (s_z s) (s_dx s) (s_dy s) v (s_ry s) (s_cf s) (s_med s).
+    mkS (s_kind s) (s_rad s) (s_con s) (s_z s) (s_dx s) (s_dy s) v (s_ry s) (s_cf s) (s_med s) (s_c2 s).
   Definition set_ry (v : T) (s : surf) : surf :=
-    mkS (s_kind s) (s_rad s) (s_con s) (s_z s) (s_dx s) (s_dy s) (s_rx s) v (s_cf s) (s_med s).
+    mkS (s_kind s) (s_rad s) (s_con s) (s_z s) (s_dx s) (s_dy s) (s_rx s) v (s_cf s) (s_med s) (s_c2 s).
+
+  Definition set_c2 (c : list (list T)) (s : surf) : surf :=
+    mkS (s_kind s) (s_rad s) (s_con s) (s_z s) (s_dx s) (s_dy s) (s_rx s) (s_ry s) (s_cf s) (s_med s) c.
+
+  (** ** freeform coefficient arrays (PolynomialCoeffVariable / ChebyshevCoeffVariable)
+      c[i][j] multiplies the monomial (i, j); entries that are not stored are zero.  A write outside the stored array
+      grows it with zeros (np.pad): every stored coefficient keeps its (i, j). *)
+  Fixpoint upd_pad {A} (d : A) (l : list A) (n : nat) (f : A -> A) : list A :=
+    match n, l with
+    | 0%nat, [] => [f d]
+    | 0%nat, x :: l' => f x :: l'
+    | S n', [] => d :: upd_pad d [] n' f
+    | S n', x :: l' => x :: upd_pad d l' n' f
+    end.
+  Definition cget2 (c : list (list T)) (a b : nat) : T := nth b (nth a c []) (ofZ 0).
+  Definition cset2 (c : list (list T)) (i j : nat) (v : T) : list (list T) :=
+    upd_pad [] c i (fun row => upd_pad (ofZ 0) row j (fun _ => v)).
+  (** all coefficients over a fixed R x C window (what the correspondence check compares: independent of how far the
+      stored array has been zero-padded, which optiland also does on a READ outside the array) *)
+  Definition c2_window (rc : nat * nat) (c : list (list T)) : list T :=
+    flat_map (fun a => map (fun b => cget2 c a b) (seq 0 (snd rc))) (seq 0 (fst rc)).
 
   Definition med_n (m : medium) (w : T) : T :=
     match m with MIdeal n _ => n | MGlass id => glass_n id w end.
 
   (** unscaled read / write of one coordinate *)
-  Definition raw_get (l : list surf) (k : hk) (i j : Z) (w : T) : T :=
+  Definition raw_get (l : list surf) (k : hk) (i j : Z) (w : T) (j2 : Z) : T :=
     match k with
     | HRadius => s_rad (nthS l i)
     | HConic => s_con (nthS l i)
@@ -231,8 +253,9 @@ Section Concrete.
     | HTiltY => s_ry (nthS l i)
     | HDecX => s_dx (nthS l i)
     | HDecY => s_dy (nthS l i)
+    | HPoly => cget2 (s_c2 (nthS l i)) (Z.to_nat j) (Z.to_nat j2)
     end.
-  Definition raw_set (l : list surf) (k : hk) (i j : Z) (v : T) : list surf :=
+  Definition raw_set (l : list surf) (k : hk) (i j : Z) (v : T) (j2 : Z) : list surf :=
     match k with
     | HRadius => updS l i (set_rad v)
     | HConic => updS l i (set_con v)
@@ -243,6 +266,7 @@ Section Concrete.
     | HTiltY => updS l i (set_ry v)
     | HDecX => updS l i (set_dx v)
     | HDecY => updS l i (set_dy v)
+    | HPoly => updS l i (fun s => set_c2 (cset2 (s_c2 s) (Z.to_nat j) (Z.to_nat j2) v) s)
     end.
 
   (** the behaviour classes' scale / inverse_scale (translated kernels); ConicVariable.get_value/update_value do not
@@ -256,6 +280,7 @@ Section Concrete.
     | HConic => v
     | HTiltX | HTiltY => k_c15_tilt_scale O v
     | HDecX | HDecY => k_c15_decenter_scale O v
+    | HPoly => k_c15_poly_scale O v
     end.
   Definition inverse_scale_of (k : hk) (j : Z) (v : T) : T :=
     match k with
@@ -266,29 +291,30 @@ Section Concrete.
     | HConic => v
     | HTiltX | HTiltY => k_c15_tilt_inverse_scale O v
     | HDecX | HDecY => k_c15_decenter_inverse_scale O v
+    | HPoly => k_c15_poly_inverse_scale O v
     end.
 
   Definition cget (l : clens) (h : handle) : T :=
-    let v := raw_get (surfs l) (h_kind h) (h_surf h) (h_j h) (h_w h) in
+    let v := raw_get (surfs l) (h_kind h) (h_surf h) (h_j h) (h_w h) (h_j2 h) in
     if h_scaled h then scale_of (h_kind h) (h_j h) v else v.
   Definition cset (l : clens) (h : handle) (v : T) : clens :=
     let v' := if h_scaled h then inverse_scale_of (h_kind h) (h_j h) v else v in
-    mkL (raw_set (surfs l) (h_kind h) (h_surf h) (h_j h) v') (pickups l).
+    mkL (raw_set (surfs l) (h_kind h) (h_surf h) (h_j h) v' (h_j2 h)) (pickups l).
 
   (** PickupManager.apply : each pickup in list order *)
   Definition pickup_apply (ss : list surf) (p : pickup) : list surf :=
     let k := match p_attr p with PRadius => HRadius | PConic => HConic | PThick => HThick end in
-    let old := raw_get ss k (p_src p) 0%Z nan_ in
-    raw_set ss k (p_tgt p) 0%Z (add (mul (p_scale p) old) (p_off p)).
+    let old := raw_get ss k (p_src p) 0%Z nan_ 0%Z in
+    raw_set ss k (p_tgt p) 0%Z (add (mul (p_scale p) old) (p_off p)) 0%Z.
   Definition cupd (l : clens) : clens := mkL (fold_left pickup_apply (pickups l) (surfs l)) (pickups l).
 
   (** flat prescription vector used by the correspondence check *)
   Definition kind_code (k : gk) : T := match k with GPlane => ofZ 0 | GStd => ofZ 1 | GOther => ofZ 2 end.
-  Definition surf_vec (ws : list T) (s : surf) : list T :=
+  Definition surf_vec (ws : list T) (rc : nat * nat) (s : surf) : list T :=
     [kind_code (s_kind s); s_rad s; s_con s; s_z s; s_dx s; s_dy s; s_rx s; s_ry s]
-      ++ s_cf s
+      ++ s_cf s ++ c2_window rc (s_c2 s)
       ++ (match s_med s with MIdeal _ _ => ofZ 0 | MGlass _ => ofZ 1 end :: map (med_n (s_med s)) ws).
-  Definition lens_vec (ws : list T) (l : clens) : list T := flat_map (surf_vec ws) (surfs l).
+  Definition lens_vec (ws : list T) (rc : nat * nat) (l : clens) : list T := flat_map (surf_vec ws rc) (surfs l).
 
   (** np.linspace(start, end, steps) (steps >= 2): start + i*step, last sample forced to end *)
   Definition linspace_ (a b : T) (n : Z) : list T :=
